@@ -264,7 +264,8 @@ def gossip_family(chk, mc_inv, mc_props, trace_inv, require_ops=(), module="Goss
         return b
 
     mc = dict(plan["mc"], **xc)
-    G.model_check(chk, label + "-exhaustive", mc, mc_inv, mc_props, view=view, module=module, spec=spec)
+    G.model_check(chk, label + "-exhaustive", mc, mc_inv, mc_props, view=view, module=module, spec=spec,
+                  timeout=plan.get("mc_timeout", 1500))
     if "mc2" in plan:
         G.model_check(chk, label + "-relay", dict(plan["mc2"], **xc), mc_inv, mc_props, view=view, module=module, spec=spec,
                       timeout=2400)
